@@ -635,12 +635,15 @@ def run_c11(ctx):
         scs.append({'sid': 'ts-%s' % part, 'kind': 'ts', 'part': part, 'seed': sd, 'n': n})
     for i in range(8 if quick else 64):
         scs.append({'sid': 'ts-random-%d' % i, 'kind': 'ts', 'part': 'random', 'seed': sd * 977 + i, 'n': 250 if quick else 2000})
+    for i in range(4 if quick else 32):
+        scs.append({'sid': 'ts-stream-%d' % i, 'kind': 'ts', 'part': 'stream', 'seed': sd * 983 + i, 'n': 25 if quick else 120})
     return pipeline(
         ctx, 'Mon_C11', 'ts', scs,
         rule='packet values: PIDs (every 4th 1024-block in quick / all 8192) with random other header fields; 16 counters x 4 scrambling values x 8 flag '
              'triples x adaptation_field_control {01,10,11}; every subset of the 5 optional AF parts x 3 extension parts; every AF size 1..184; '
              'PCR/OPCR/seamless-splice DTS at every single-bit value, 0 and all-ones, 9-bit extensions, 22-bit rate, 15-bit LTW offset, all 256 splice '
-             'countdowns; private data 0..181 bytes; seeded random packets. Each value: real WritePacket bytes = TSEncode!Encode(value) (TLC), real '
+             'countdowns; private data 0..181 bytes; seeded random packets; histories: packets written by one Muxer between WriteTables / WriteData calls '
+             'and read back by one Demuxer whose PacketSkipper drops some. Each value: real WritePacket bytes = TSEncode!Encode(value) (TLC), real '
              'NextPacket of those bytes = value, re-emission byte-identical',
         assumptions=['parse direction uses the bytes the real writer produced once TLC has confirmed they are the reference encoding'])
 
